@@ -46,6 +46,75 @@ def extremes(rng):
     return "X.extract", ("extract:%d:%d" % (hi, lo), x)
 
 
+def fp_str_stream(ctx, rng, kinds, dist):
+    """crash-freedom of eager folding on concrete floats (NaN, infinities, subnormals, huge magnitudes, every rounding mode and
+    conversion size) and strings (metacharacters, surrogates, empty, long); oracle only"""
+    import claripy
+    from lib import fs_fp as P, fs_str as S
+    n = ctx.pick(2500, 40000)
+    fp_ops = list(P.OPS_ARITH) + list(P.OPS_UNARY) + list(P.OPS_CMP) + ["fpSqrt", "fpToFP_fp", "fpToFP_sbv", "fpToFPUnsigned", "fpToFP_bv",
+                                                                          "fpToSBV", "fpToUBV", "fpFP"]
+    rms = list(P.RM_NAME)
+    bb = {f: P.boundary_bits(f) for f in "FD"}
+    meta = ["", "a", "\\", "\\x41", "\\u{41}", "%s", "{}", ".*", "[a-z]+", "\"", "'", "\n", "\x00", "é", "中", "\ud800", "\U0001f600", "a" * 300, "<>", "()", "0", "-1",
+            "007", "18446744073709551616", "１２", " 1", "1 ", "+1"]
+    for i in range(n):
+        ctx.count()
+        if rng.random() < 0.6:
+            fmt = rng.choice("FD")
+            op = rng.choice(fp_ops)
+            rm = rng.choice(rms)
+
+            def fl(f=fmt):
+                return rng.choice(bb[f]) if rng.random() < 0.6 else P.rand_bits(rng, f)
+
+            def bvarg(size):
+                return (rng.choice(P.int_pool(rng, size, 2)), size)
+            if op in P.OPS_ARITH or op in P.OPS_CMP:
+                a = (fl(), fl())
+            elif op == "fpToFP_fp":
+                a = (fl(P.other(fmt)),)
+            elif op in ("fpToFP_sbv", "fpToFPUnsigned"):
+                a = (bvarg(rng.choice([1, 8, 32, 64, 65, 128])),)
+            elif op == "fpToFP_bv":
+                a = (bvarg(P.WIDTH[fmt]),)
+            elif op in ("fpToSBV", "fpToUBV"):
+                a = (fl(), rng.choice([1, 8, 16, 32, 64, 65, 128]))
+            elif op == "fpFP":
+                eb, sb = P.FMT[fmt]
+                a = (rng.getrandbits(1), rng.choice([0, (1 << eb) - 1, rng.getrandbits(eb)]), rng.choice([0, (1 << (sb - 1)) - 1, rng.getrandbits(sb - 1)]))
+            else:
+                a = (fl(),)
+            name = "F." + op
+            r = P.real_fold(op, fmt, rm, a)
+            desc = P.fmt_case(op, fmt, rm, a)
+            rep = {"kind": "fp", "op": op, "fmt": fmt, "rm": rm, "a": a}
+        else:
+            op = rng.choice(S.OPS)
+
+            def st():
+                t = rng.choice(meta)
+                if rng.random() < 0.3:
+                    t = t + rng.choice(meta)
+                return S.cps(t)
+            a = tuple(st() if k == "s" else rng.choice([0, 1, 2, 5, 299, 300, 301, (1 << 63), (1 << 64) - 1, (1 << 64) - 2, rng.getrandbits(64)]) for k in S.SIG[op])
+            name = "S." + op
+            r = S.real_fold(op, a)
+            desc = S.fmt_case(op, a)
+            rep = {"kind": "str", "op": op, "a": a}
+        dist[name] += 1
+        if r[0] != "err":
+            kinds["ok"] += 1
+            ctx.distinct(desc[:300])
+            continue
+        kinds[r[1]] += 1
+        exc = r[1]
+        cls = getattr(claripy.errors, exc, None)
+        if isinstance(cls, type) and issubclass(cls, claripy.errors.ClaripyError):
+            continue        # a claripy error; which conditions are documented is judged by C02/C03 against the reference semantics
+        ctx.violation("C04/%s/%s" % (op, exc), "folding %s raised %s" % (desc[:300], exc), rep)
+
+
 def well_typed_reverse_nonbyte(tree):
     if tree[0] == "reverse":
         w = E.width(tree[1])
@@ -61,7 +130,7 @@ def run(ctx):
     ctx.cov["trusted_base"] += [
         "CPython's MemoryError / hang behaviour is abstracted by a 6 GiB address-space limit and a 5 s alarm per construction",
         "the model covers eager folding of the BV/Bool fragment; crash-freedom of the rewriting code paths rests on the generated stream (oracle), "
-        "FP and string folding are exercised by C02/C03",
+        "FP and string folding: crash-freedom is checked here by the oracle stream only (their models and theorems are C02/C03's)",
     ]
     ctx.cov["rule"] = ("cases = well-typed written trees from the C01 templates plus a boundary stream (shift/rotate amounts near 2^w up to "
                        "256 bits, long concats, 150-deep chains, non-byte reverses, zero divisors); non-trivial = reaches folding or a rewrite; "
@@ -123,6 +192,7 @@ def run(ctx):
             ctx.violation("C04/%s/%s" % (small[0].split(":")[0], k),
                           "building %s raised %s: %s" % (repr(small)[:300], k, str(e2 or e)[:200]),
                           {"tree": small, "exception": k, "message": str(e2 or e)[:300], "template": name})
+        fp_str_stream(ctx, rng, kinds, dist)
     finally:
         resource.setrlimit(resource.RLIMIT_AS, (soft, hard))
     if fold_lines:
